@@ -307,7 +307,7 @@ def cq_role(r):
         return "FInvWrap %s" % C.cq_bool(r[1])
     if r[0] == "new":
         return "FNewWrap"
-    return "FForeign 4999"
+    return "FForeign 999"
 
 
 def cq_zl(l):
